@@ -15,6 +15,10 @@ type getGen struct {
 func (g *getGen) generate() {
 	g.genComment()
 	g.P("func (x *", g.typeName, ") Get(descriptor ", protoreflectPkg.Ident("FieldDescriptor"), ") ", protoreflectPkg.Ident("Value"), " {")
+	// a nil receiver is the read-only empty message: read it as the zero value
+	g.P("if x == nil {")
+	g.P("x = new(", g.typeName, ")")
+	g.P("}")
 	g.P("switch descriptor.FullName() {")
 	// implement the fastReflectionFeature Get function
 	for _, field := range g.message.Fields {
